@@ -418,6 +418,10 @@ def run(cx):
             ok = t[0] == "call" and name_matches(t[1], "Option::map") and mentions_field(t[2][0], f) and t[2][1] == ("fnptr", "core::time::Duration::from_millis")
             ob.require(ok, f"config/{g}", f"Config::{g} returns {show(t)}", gb.path)
 
+    with cx.ob("C11.4c", "R-CONST", "configured request timeouts are milliseconds (unit discipline of the Config accessors)") as ob:
+        check_ms_getter(ob, prog, "anemo::config::Config::inbound_request_timeout", "inbound_request_timeout_ms")
+        check_ms_getter(ob, prog, "anemo::config::Config::outbound_request_timeout", "outbound_request_timeout_ms")
+
     with cx.ob("C11.4b", "R-FLOW", "outbound::TimeoutLayer(config.outbound_request_timeout()) is in the layer in both branches, reaches every Peer, and Peer::call applies it") as ob:
         start = cx.body("anemo::network::Builder::start")
         o = Origins(start)
